@@ -45,6 +45,15 @@ Theorem C07_submit_registers_before_topping_up :
   PoolThm.index_of PoolLib.SAddPending Pool.submit_prog < PoolThm.index_of PoolLib.SEnsureRunning Pool.submit_prog.
 Proof. exact PoolThm.submit_registers_before_topping_up. Qed.
 Print Assumptions C07_submit_registers_before_topping_up.
+(* submit() is NOT atomic in this theorem: its statements interleave in every possible way with idle exits, reaps and completions.
+   On a healthy referenced executor a registered job always has a registered worker, or the submit that registered it still has
+   its top-up to do.  (Without the executor reference nobody re-spawns: finding H2.  With the two statements of submit() in the
+   other order the job is lost: PoolThm.top_up_before_registering_loses_the_job, seeded change C07_b.) *)
+Theorem C07_registered_job_always_has_a_worker_coming :
+  forall n es, 0 < n -> forallb PoolThm.healthy_ev es = true -> let p := Pool.run es (Pool.pool0 n) in
+    0 < Pool.pending p -> Pool.procs p <> [] \/ Pool.ensure_due p = true.
+Proof. exact PoolThm.registered_job_always_has_a_worker_coming. Qed.
+Print Assumptions C07_registered_job_always_has_a_worker_coming.
 Theorem C07_structure : Pool.clean_exit_reads_counters_after_the_pop_and_respawns_when_work_waits = true.
 Proof. reflexivity. Qed.
 Print Assumptions C07_structure.
